@@ -6,10 +6,19 @@ use std::panic::catch_unwind;
 
 mod ops;
 mod ops_c29;
+mod ops_c12c13;
+mod ops_c14;
+mod ops_c07;
+mod ops_c15;
+mod ops_c32;
+mod ops_c16;
+mod ops_c24;
+mod ops_c25;
 // ADD-MODS-HERE
 
 fn main() {
     std::panic::set_hook(Box::new(|_| {}));
+    if ops_c12c13::maybe_subcommand() { return; } // `wvh dump-reloc-tables` (C12 T1)
     let stdin = std::io::stdin();
     let stdout = std::io::stdout();
     let mut out = std::io::BufWriter::new(stdout.lock());
